@@ -490,6 +490,21 @@ def _nested_then_later():
                 yield ["seq", [["set", "c", 0], ["split", [["seq", body], ["tuple", [["data", "inc"]]]]]]]
 
 
+def _deep_keys():
+    """SetContext keys with tens of dotted components that share a long prefix."""
+    for depth in (8, 31, 32, 33, 34, 64, 100):
+        pre = ".".join("k%d" % i for i in range(depth))
+        body = [["set", pre + ".detector", "far"], ["store", "s1"], ["set", pre + ".cycle", 2],
+                ["store", "s2"], ["set", "run", 7], ["data", "inc"],
+                ["set", pre + ".lost", True], ["store", "s3"], ["ucfs", "u1"],
+                ["split", [["tuple", [["set", pre + ".branch", 1], ["store", "s4"]]],
+                           ["tuple", [["data", "inc"], ["store", "s5"]]]]],
+                ["store", "s6"]]
+        yield ["seq", copy.deepcopy(body)]
+        yield ["source", copy.deepcopy(body), 0]
+        yield ["seq", [["set", pre + ".outer", 0], ["seq", copy.deepcopy(body)], ["store", "s7"]]]
+
+
 SRC_TAILS = ["ucfs", "store", "mkfn", "seq-store", "f-ucfs", "set-ucfs", "seq-ucfs-store"]
 
 
@@ -503,6 +518,8 @@ def cases(tier, seed):
             yield {"k": "userctx", "root": root, "n": nbr}
     for tree in _nested_then_later():
         yield {"k": "tree", "tree": tree, "flow": FLOW, "vseed": 6, "nv": NVARIANTS[tier]}
+    for tree in _deep_keys():
+        yield {"k": "tree", "tree": tree, "flow": FLOW, "vseed": 7, "nv": 3, "deepkeys": 1}
     for tree in _dropped_key():
         yield {"k": "tree", "tree": tree, "flow": FLOW, "vseed": 5, "nv": NVARIANTS[tier]}
     for tree in _subclass_values():
@@ -1198,6 +1215,21 @@ def _case(r, obs, tmp):
     base = observe(A, rec, os.path.join(tmp, "a"), obs)
     ctxinfo = {"tmp": tmp, "n": itertools.count(), "flow": flow_r, "obs": obs}
     nbad = check_static(tree, rec, base, obs, "base tree", ctxinfo)
+    # ---- (1d) a deep copy of the whole tree (what SplitIntoBins / MapBins / Vectorize make of
+    # the sequences they are given, and what a user does to run one analysis twice): the same
+    # enclosing and preceding elements, hence the same static context for every consumer - also
+    # after the original was used
+    if not nbad and r.get("vseed", 0) % 2 == 0 or r.get("deepkeys"):
+        try:
+            B = build(tree, os.path.join(tmp, "c"), flow_r)
+            C = copy.deepcopy(B)
+        except Exception:  # pylint: disable=broad-except
+            C = None
+            obs.count("trees_not_deep_copyable")
+        if C is not None:
+            obs.count("deep_copied_trees")
+            cobs = observe(C, rec, os.path.join(tmp, "c"), obs)
+            check_static(tree, rec, cobs, obs, "deep copy of the tree", ctxinfo)
     kinds = _kinds(tree)
     if "set" in kinds and any(k in kinds for k in M.CONSUMERS):
         obs.nontrivial = True
